@@ -15,6 +15,10 @@
 #include <gmssl/hmac.h>
 #include <gmssl/digest.h>
 #include <gmssl/x509_ext.h>
+#include <gmssl/x509_crl.h>
+#include <gmssl/base64.h>
+#include <gmssl/hex.h>
+#include <gmssl/hkdf.h>
 
 int tls13_gcm_encrypt(const BLOCK_CIPHER_KEY *key, const uint8_t iv[12], const uint8_t seq_num[8], int record_type,
 	const uint8_t *in, size_t inlen, size_t padding_len, uint8_t *out, size_t *outlen);
@@ -39,6 +43,7 @@ typedef struct Worker {
 static Worker g_w[MAX_WT];
 static const Plan *g_tp;
 
+static SM9_ENC_MASTER_KEY g_t_sm9em[3]; static SM9_ENC_KEY g_t_sm9ek[3];
 static SM9_SIGN_MASTER_KEY g_t_sm9m[3]; static SM9_SIGN_KEY g_t_sm9k[3];   /* several master keys: tasks must not share key-dependent state */
 static int g_t_ready;
 
@@ -47,13 +52,15 @@ static void threads_setup(void)
 	if (g_t_ready) return;
 	sim_ambient_entropy_seed(0x7123ad5);
 	for (int i = 0; i < 3; i++)
-		if (sm9_sign_master_key_generate(&g_t_sm9m[i]) != 1 || sm9_sign_master_key_extract_key(&g_t_sm9m[i], "carol", 5, &g_t_sm9k[i]) != 1) die("threads setup");
+		if (sm9_sign_master_key_generate(&g_t_sm9m[i]) != 1 || sm9_sign_master_key_extract_key(&g_t_sm9m[i], "carol", 5, &g_t_sm9k[i]) != 1
+		    || sm9_enc_master_key_generate(&g_t_sm9em[i]) != 1 || sm9_enc_master_key_extract_key(&g_t_sm9em[i], "dave", 4, &g_t_sm9ek[i]) != 1) die("threads setup");
 	(void)creds_get(1, 0); (void)creds_get(2, 0); (void)creds_get(1, 1);
 	g_t_ready = 1;
 }
 
 #define D(w, p, n) ((w)->digest = hash_bytes((w)->digest, (p), (n)))
 #define DI(w, v) do { int64_t _v = (v); D(w, &_v, 8); } while (0)
+#define DI1(w, v) do { int64_t _v = (v); D(w, &_v, 8); if (_v != 1) wfail(w, #v); } while (0)   /* must succeed */
 static void wfail(Worker *w, const char *what) { if (!w->failed) { w->failed = 1; snprintf(w->failed_what, sizeof(w->failed_what), "%s", what); } }
 
 static void script_task(void *arg)
@@ -64,7 +71,8 @@ static void script_task(void *arg)
 	uint8_t buf[2048], out[2304], key[32], iv[16];
 	w->digest = 0x7a5c;
 	for (int i = 0; i < w->nops; i++) {
-		int op = (int)rng_below(&r, 16);
+		int op = (int)rng_below(&r, 24);
+		if (g_tp->afail_at >= 0 && rng_chance(&r, 1, 2)) op = 12;      /* the operation that allocates */
 		size_t n = 1 + rng_below(&r, 1500);
 		rng_bytes(&r, buf, n); rng_bytes(&r, key, 32); rng_bytes(&r, iv, 16);
 		DI(w, op);
@@ -130,6 +138,76 @@ static void script_task(void *arg)
 			SM9_SIGN_CTX vc; DI(w, sm9_verify_init(&vc)); DI(w, sm9_verify_update(&vc, buf, n)); DI(w, sm9_verify_finish(&vc, sig, sl, &g_t_sm9m[w->id % 3], "carol", 5)); }
 			break;
 		case 14: { uint8_t okm[64]; DI(w, sm3_pbkdf2((char *)buf, 8, key, 16, 64 + (int)(n % 64), 40, okm)); D(w, okm, 40); break; }
+		case 16: { /* base64 and hex codecs */
+			BASE64_CTX bc; uint8_t b64[2304], back[2048]; int l1 = 0, l2 = 0, l3 = 0, l4 = 0; size_t m = n % 1200 + 1;
+			base64_encode_init(&bc); DI1(w, base64_encode_update(&bc, buf, (int)m, b64, &l1)); base64_encode_finish(&bc, b64 + l1, &l2); D(w, b64, (size_t)(l1 + l2));
+			base64_decode_init(&bc); DI1(w, base64_decode_update(&bc, b64, l1 + l2, back, &l3)); DI1(w, base64_decode_finish(&bc, back + l3, &l4));
+			if ((size_t)(l3 + l4) != m || memcmp(back, buf, m)) wfail(w, "base64 round trip");
+			char hx[129]; size_t hl = 0; for (int k = 0; k < 64; k++) snprintf(hx + 2 * k, 3, "%02x", buf[k]);
+			DI1(w, hex_to_bytes(hx, 128, back, &hl)); if (hl != 64 || memcmp(back, buf, 64)) wfail(w, "hex round trip"); break; }
+		case 17: { /* KDFs */
+			SM3_KDF_CTX kc; uint8_t okm[96], prk[32];
+			sm3_kdf_init(&kc, 80); sm3_kdf_update(&kc, buf, n); sm3_kdf_finish(&kc, okm); D(w, okm, 80);
+			DI1(w, sm3_hkdf_extract(key, 32, buf, n, prk)); D(w, prk, 32);
+			DI1(w, sm3_hkdf_expand(prk, iv, 16, 96, okm)); D(w, okm, 96); break; }
+		case 18: { /* SM4 streaming contexts and the remaining modes */
+			SM4_CBC_CTX cc; SM4_CTR_CTX tc; size_t o1 = 0, o2 = 0, h = n / 3; uint8_t back[2304]; size_t b1 = 0, b2 = 0;
+			DI1(w, sm4_cbc_encrypt_init(&cc, key, iv)); DI1(w, sm4_cbc_encrypt_update(&cc, buf, h, out, &o1)); { size_t o = 0; DI1(w, sm4_cbc_encrypt_update(&cc, buf + h, n - h, out + o1, &o)); o1 += o; }
+			DI1(w, sm4_cbc_encrypt_finish(&cc, out + o1, &o2)); D(w, out, o1 + o2);
+			DI1(w, sm4_cbc_decrypt_init(&cc, key, iv)); DI1(w, sm4_cbc_decrypt_update(&cc, out, o1 + o2, back, &b1)); DI1(w, sm4_cbc_decrypt_finish(&cc, back + b1, &b2));
+			if (b1 + b2 != n || memcmp(back, buf, n)) wfail(w, "sm4-cbc ctx round trip");
+			DI1(w, sm4_ctr_encrypt_init(&tc, key, iv)); DI1(w, sm4_ctr_encrypt_update(&tc, buf, n, out, &o1)); DI1(w, sm4_ctr_encrypt_finish(&tc, out + o1, &o2)); D(w, out, o1 + o2);
+#ifdef ENABLE_SM4_OFB
+			{ SM4_KEY k; uint8_t v[16]; memcpy(v, iv, 16); sm4_set_encrypt_key(&k, key); sm4_ofb_encrypt(&k, v, buf, n, out); D(w, out, n); }
+#endif
+#ifdef ENABLE_SM4_CFB
+			{ SM4_KEY k; uint8_t v[16]; memcpy(v, iv, 16); sm4_set_encrypt_key(&k, key); sm4_cfb_encrypt(&k, SM4_CFB_128, v, buf, n, out); D(w, out, n);
+			  memcpy(v, iv, 16); sm4_cfb_decrypt(&k, SM4_CFB_128, v, out, n, back); if (memcmp(back, buf, n)) wfail(w, "sm4-cfb round trip"); }
+#endif
+#ifdef ENABLE_SM4_CCM
+			{ SM4_KEY k; uint8_t tag[16]; sm4_set_encrypt_key(&k, key);
+			  DI1(w, sm4_ccm_encrypt(&k, iv, 12, key, 9, buf, n, out, 16, tag)); D(w, out, n); D(w, tag, 16);
+			  DI1(w, sm4_ccm_decrypt(&k, iv, 12, key, 9, out, n, tag, 16, back)); if (memcmp(back, buf, n)) wfail(w, "sm4-ccm round trip"); }
+#endif
+			break; }
+		case 19: { /* the other digests behind the DIGEST interface, HMAC over them */
+			static const char *names[] = { "sha1", "sha224", "sha256", "sha384", "sha512", "sm3" };
+			const DIGEST *dg = digest_from_name(names[rng_below(&r, 6)]); if (!dg) dg = DIGEST_sm3();
+			DIGEST_CTX c; uint8_t d[64]; size_t dl = 0; size_t h = n / 2;
+			DI1(w, digest_init(&c, dg)); DI1(w, digest_update(&c, buf, h)); DI1(w, digest_update(&c, buf + h, n - h)); DI1(w, digest_finish(&c, d, &dl)); D(w, d, dl);
+			HMAC_CTX hc; DI1(w, hmac_init(&hc, dg, key, 32)); DI1(w, hmac_update(&hc, buf, n)); DI1(w, hmac_finish(&hc, d, &dl)); D(w, d, dl); break; }
+		case 20: if (rng_chance(&r, 1, 3)) { /* SM9 (slow): encrypt / decrypt under this task's master key */
+			uint8_t ct[512], pt[128]; size_t cl = 0, pl = 0, m = n % 100 + 1;
+			DI1(w, sm9_encrypt(&g_t_sm9em[w->id % 3], "dave", 4, buf, m, ct, &cl)); D(w, ct, cl);
+			DI1(w, sm9_decrypt(&g_t_sm9ek[w->id % 3], "dave", 4, ct, cl, pt, &pl)); if (pl != m || memcmp(pt, buf, m)) wfail(w, "sm9 enc round trip"); }
+			break;
+		case 21: { /* CRL: sign, verify, check against this task's clock */
+			SM2_KEY ck; uint8_t name[256]; size_t namelen; uint8_t crl[1024], *p = crl; size_t len = 0;
+			DI1(w, sm2_key_generate(&ck)); creds_make_name("T CRL CA", name, &namelen);
+			int64_t tu = SIM_T0 - 5 - (int64_t)(w->id % 5) * 300 * 86400LL;
+			DI1(w, x509_crl_sign_to_der(1, OID_sm2sign_with_sm3, name, namelen, tu, tu + 86400 * 900LL, NULL, 0, NULL, 0,
+				&ck, SM2_DEFAULT_ID, SM2_DEFAULT_ID_LENGTH, &p, &len)); D(w, crl, len);
+			DI1(w, x509_signed_verify(crl, len, &ck, SM2_DEFAULT_ID, SM2_DEFAULT_ID_LENGTH)); DI1(w, x509_crl_check(crl, len, (time_t)SIM_T0)); break; }
+		case 22: { /* printing into a caller-designated stream */
+			const CredSet *cr = creds_get(2, 0); char *txt = NULL; size_t tl = 0;
+			FILE *mf = open_memstream(&txt, &tl);
+			if (mf) {
+				const uint8_t *c = cr->srv_chain; size_t cl = cr->srv_chain_len; const uint8_t *cert; size_t certlen;
+				while (cl && x509_cert_from_der(&cert, &certlen, &c, &cl) == 1) DI1(w, x509_cert_print(mf, 0, 0, "Certificate", cert, certlen));
+				fclose(mf); D(w, txt, tl); free(txt);
+			}
+			break; }
+		case 23: { /* key PEM through a caller-designated stream, password-protected */
+			SM2_KEY k, k2; char *txt = NULL; size_t tl = 0;
+			DI1(w, sm2_key_generate(&k));
+			FILE *mf = open_memstream(&txt, &tl);
+			if (mf) {
+				DI1(w, sm2_private_key_info_encrypt_to_pem(&k, "pw-threads", mf)); fclose(mf); DI(w, (int64_t)tl);
+				FILE *rf = fmemopen(txt, tl, "r");
+				if (rf) { DI1(w, sm2_private_key_info_decrypt_from_pem(&k2, "pw-threads", rf)); fclose(rf); if (memcmp(&k, &k2, sizeof(k))) wfail(w, "encrypted pem round trip"); }
+				free(txt);
+			}
+			break; }
 		default: { /* ECDH between two fresh keys: both sides must agree */
 			SM2_KEY a, b; SM2_Z256_POINT s1, s2; uint8_t x1[64], x2[64];
 			DI(w, sm2_key_generate(&a)); DI(w, sm2_key_generate(&b));
@@ -178,6 +256,9 @@ static void threads_gen(Plan *p, uint64_t base_seed, uint64_t variant, int tier)
 	p->stay_num = 1; p->stay_den = 2;
 	p->seg_style = (int64_t[]){ 0, 2, 3 }[rng_below(&g, 3)]; p->max_chunk = 200; p->max_lat_ns = rng_chance(&g, 1, 2) ? 0 : 50000;
 	gen_rounds(p, &g, tier, 2, 3000);
+	/* non-blocking sockets for the connection tasks; allocator failures for the script tasks */
+	p->eagain = rng_chance(&g, 1, 3);
+	if (rng_chance(&g, 1, 4)) { p->afail_node = -2; p->afail_at = rng_below(&g, 3); p->afail_rest = rng_chance(&g, 2, 3); }
 }
 
 static uint64_t g_seq_digest[MAX_WT];
@@ -198,7 +279,7 @@ static void threads_exec(const Plan *p, int preempt)
 	if (pairs * 2 > nt) pairs = nt / 2;
 	memset(g_w, 0, sizeof(g_w));
 	NetKnobs k; memset(&k, 0, sizeof(k));
-	k.seg_style = (int)p->seg_style; k.max_chunk = (int)p->max_chunk; k.max_lat_ns = p->max_lat_ns;
+	k.seg_style = (int)p->seg_style; k.max_chunk = (int)p->max_chunk; k.max_lat_ns = p->max_lat_ns; k.eagain = (int)p->eagain;
 	const CredSet *cs = creds_get((int)p->depth, p->proto == P_TLCP);
 	for (int i = 0; i < nt; i++) {
 		Worker *w = &g_w[i];
@@ -207,6 +288,11 @@ static void threads_exec(const Plan *p, int preempt)
 		g_sim.nodes[i].skew_s = i * 3;
 		w->script_seed = mix64((uint64_t)p->plan_seed + (uint64_t)i * 977);
 		w->nops = (int)p->op_count;
+		/* allocator failures only in script tasks: what a connection endpoint has written when its peer gives up
+		 * depends on the schedule, a script's results never do */
+		if (i >= pairs * 2 && p->afail_at >= 0 && (p->afail_node == -2 || p->afail_node == i)) {
+			g_sim.nodes[i].afail_at = p->afail_at; g_sim.nodes[i].afail_rest = (int)p->afail_rest;
+		}
 		if (i < pairs * 2) {
 			int ci = i / 2, side = i % 2;
 			Conn *c = side == 0 ? net_conn_new(&k, (uint64_t)p->net_seed + (uint64_t)ci) : &g_conns[ci];
@@ -246,7 +332,8 @@ static void threads_run(const Plan *p, RunResult *r)
 	for (int i = 0; i < nt; i++) { g_seq_digest[i] = g_w[i].digest; g_seq_failed[i] = g_w[i].failed; }
 	int base_fail = -1;
 	for (int i = 0; i < nt; i++) if (g_w[i].failed) base_fail = i;
-	if (base_fail >= 0) {
+	int afail = p->afail_at >= 0;     /* with allocator failures a script op may fail, alone and under preemption alike */
+	if (base_fail >= 0 && !afail) {
 		r->twin_failed = 1;
 		snprintf(r->extra, sizeof(r->extra), "twin_failed=\"task %d: %s\"", base_fail, g_w[base_fail].failed_what);
 		return;
@@ -254,12 +341,17 @@ static void threads_run(const Plan *p, RunResult *r)
 	threads_exec(p, 1);
 	r->nontrivial = g_hook_yields > 0;
 	r->nontrivial_id = g_sim.ileave;
+	if (afail) {
+		int fired = 0;
+		for (int i = 0; i < nt; i++) fired += g_sim.nodes[i].afail_fired;
+		r->faults_cfg[F_AFAIL] = 1; r->faults_fired[F_AFAIL] = fired > 0;
+	}
 	snprintf(r->extra, sizeof(r->extra), "proto=%s mutual=%d depth=%d tasks=%d pairs=%d mean=%d pct=%d hook_calls=%llu preemptions=%llu",
 		g_proto_names[p->proto], (int)p->mutual, (int)p->depth, nt, (int)p->victim, (int)p->preempt_mean, (int)p->pct_d,
 		(unsigned long long)g_hook_calls, (unsigned long long)g_hook_yields);
 	if (g_sim.step_capped) { rr_violation(r, "no_termination", "step cap"); return; }
 	for (int i = 0; i < nt; i++) {
-		if (g_w[i].digest != g_seq_digest[i] || g_w[i].failed) {
+		if (g_w[i].digest != g_seq_digest[i] || (afail ? g_w[i].failed != g_seq_failed[i] : g_w[i].failed)) {
 			rr_violation(r, "x", "task %d (%s) produced a different result log under preemption (%llu context switches, mean %d calls) than when run without: %s",
 				i, g_w[i].ep ? "connection endpoint" : "script", (unsigned long long)g_sim.switches, (int)p->preempt_mean,
 				g_w[i].failed ? g_w[i].failed_what : "digest differs");
